@@ -83,7 +83,7 @@ NATIVE['n_trace_corpus'] = dict(
     harness='native/cairo-lang-runner/n_trace_corpus.rs',
     props={'C04', 'C17'},
     bound='16 Cairo programs (recursion, arrays, dictionaries, hashes, integer arithmetic, EC, enums/boxes, byte arrays, panics, locals, circuits, signed and bounded ints, structs and spans, many-variant enums, felt division, dictionaries in structs) and 14 of the repository examples '
-          'x 1-5 functions x <= 3 (quick) / all (thorough) inputs x {linear, equation} solvers, run on the VM',
+          'x 1-5 functions x <= 3 (quick) / all (thorough) inputs x {linear, equation} solvers, run on the VM; for C17 also 3 hand-written Sierra shapes the Cairo compiler never emits (finalize_locals without locals, locals allocated late, dummy_function_call)',
     functions=[('crates/cairo-lang-runner/src/lib.rs', 'impl SierraCasmRunner', 'run_function_with_starknet_context'),
                ('crates/cairo-lang-sierra-to-casm/src/compiler.rs', None, 'compile')],
 )
